@@ -293,12 +293,31 @@ def eval_estimators(case, ctx):
                 ctx.fail(f'{row.name}|batch_raises_but_no_row_does', f'{type(eb).__name__}: {eb}'[:200])
             continue
         if es is not None:
+            # the per-sample path fails on exactly this sample but works on copies of it moved by rounding-size amounts: a singular
+            # pose of the formula (0/0 in the scalar arithmetic, a valid-looking but arbitrary row in the vectorised one)
+            works_nearby = False
+            for pa, pm in _perturbed(ACC[i], MAG[i]):
+                try:
+                    p_ = np.asarray(single_of(i, pa, pm))
+                    works_nearby = works_nearby or bool(np.all(np.isfinite(np.asarray(p_, dtype=complex))))
+                except Exception:
+                    pass
+            if works_nearby:
+                ctx.label('singular_pose_skipped')
+                continue
             ctx.fail(f'{row.name}|single_raises_but_batch_does_not', f'{type(es).__name__}: {es}'[:200])
             continue
         if rb.shape != (n,) + ref_shape:
             ctx.fail(f'{row.name}|batch_shape', f'{rb.shape} for N={n}')
             continue
-        judge(ctx, row.name, rb[i], rs, lambda a_, m_: single_of(i, a_, m_), ACC[i], MAG[i])
+        # on consistent data the true attitude is known: how far the per-sample path itself is from it bounds what rounding can do
+        acc_of_single = None
+        if case['data'] == 'consistent' and rs is not None and _valid_attitude(row, rs):
+            try:
+                acc_of_single = float(E.attitude_error(row, rs, np.array(case['samples'][i]['q'], dtype=float)/np.linalg.norm(case['samples'][i]['q']), frame))
+            except Exception:
+                acc_of_single = None
+        judge(ctx, row.name, rb[i], rs, lambda a_, m_: single_of(i, a_, m_), ACC[i], MAG[i], acc_of_single)
         if row.one_sample:
             def one():
                 if row.seeded:
@@ -310,7 +329,7 @@ def eval_estimators(case, ctx):
             if eo is not None:
                 ctx.fail(f'{row.name}|one_sample|raises', f'{type(eo).__name__}: {eo}'[:200])
             else:
-                judge(ctx, row.name + '|one_sample', ro, rs, lambda a_, m_: single_of(i, a_, m_), ACC[i], MAG[i])
+                judge(ctx, row.name + '|one_sample', ro, rs, lambda a_, m_: single_of(i, a_, m_), ACC[i], MAG[i], acc_of_single)
 
 
 def _valid_attitude(row, out):
@@ -334,9 +353,10 @@ def _perturbed(acc, mag):
     na, nm = float(np.linalg.norm(a)), float(np.linalg.norm(m))
     for pat in _PATTERNS:
         yield a + 8e-16*na*np.array(pat[:3], dtype=float), m + 8e-16*nm*np.array(pat[3:], dtype=float)
-    # ... and three rescaled copies: every estimator of the table uses directions only, so a positive factor changes nothing but
+    # ... and fifteen rescaled copies (a sample of what the rounding of the internal normalisation can do): every estimator of the table uses directions only, so a positive factor changes nothing but
     # the rounding of the internal normalisation (1 ulp on a_z, which terms like (a_z - 1) near the level pose amplify without bound)
-    for sa, sm in ((3.0, 3.0), (1.0/3.0, 0.7), (0.7, 1.0/3.0)):
+    for sa, sm in ((3.0, 3.0), (1.0/3.0, 0.7), (0.7, 1.0/3.0), (1.1, 1.9), (5.0, 0.3), (0.3, 7.0), (11.0, 1.3), (1.7, 0.9), (0.9, 1.7),
+                   (13.0, 17.0), (0.19, 0.23), (2.3, 0.41), (0.61, 3.7), (1.0/7.0, 1.0/11.0), (19.0, 0.53)):
         yield a*sa, m*sm
 
 
@@ -355,7 +375,7 @@ def _singular_for_scalar_path(single_fn, acc, mag, ref):
     return False
 
 
-def judge(ctx, name, got, ref, single_fn, acc, mag):
+def judge(ctx, name, got, ref, single_fn, acc, mag, acc_of_single=None):
     """Equality to 1e-12, sign included.  A larger difference is only excused when the scalar path itself moves by a
     comparable amount under a few-ulp perturbation of the sample (ill-conditioned / singular pose: both paths return
     rounding noise there), which is measured, not assumed."""
@@ -384,6 +404,11 @@ def judge(ctx, name, got, ref, single_fn, acc, mag):
         diff = float(np.max(np.abs(np.asarray(g, dtype=complex) - np.asarray(r, dtype=complex))))
         if diff <= 50.0*sens:
             ctx.label('ill_conditioned_row_excused', f'ill_conditioned:{name}')
+            return
+        if acc_of_single is not None and diff <= 8.0*acc_of_single:
+            # the per-sample result is itself this far (geodesic angle) from the attitude the exact data encode: the formula
+            # loses that much to rounding at this pose, and two arrangements of it may differ by as much
+            ctx.label('ill_conditioned_row_excused', f'inaccurate_at_this_pose:{name}')
             return
     ctx.fail(f'{name}|batch_differs_from_single', (why + f' (scalar-path sensitivity to 4-ulp input noise: {sens:.2e})')[:320])
 
